@@ -111,9 +111,12 @@ ipc_pipe_stop(void *arg)
 	nni_aio_stop(&p->tx_aio);
 	nni_aio_stop(&p->neg_aio);
 	nng_stream_stop(p->conn);
-	nni_mtx_lock(&ep->mtx);
-	nni_list_node_remove(&p->node);
-	nni_mtx_unlock(&ep->mtx);
+	// no endpoint yet if the pipe could not be created completely
+	if (ep != NULL) {
+		nni_mtx_lock(&ep->mtx);
+		nni_list_node_remove(&p->node);
+		nni_mtx_unlock(&ep->mtx);
+	}
 }
 
 static int
